@@ -1,35 +1,32 @@
 import SLModel.Core.Filter
+import SLModel.Core.FilterLegacy
 import SLModel.Lemmas.Filter
 import SLModel.Lemmas.FilterMore
 /-!
 # C08 — filters follow the documented filter semantics
 
 Model: `Core/Filter`.  `Spec.passes` is the documented semantics on the document tree,
-`flatten` the fast-field columns `collect_document` writes for one document, `Col.passes` the
+`flatten` the fast-field columns `collect_document` writes for one document (after the repair
+a2fc693: the objects of a child path are numbered across all parent objects), `Col.passes` the
 code's evaluation (`passes_filter`) over those columns.  Tie to the code: `Drv/C08` runs
 `Col.passes ∘ flatten` and `Spec.passes`; the harness compares the first with the real
 `search(match_all, filter)` per document (correspondence) and evaluates its own tree semantics
 against the real hits (finder).
 
-The full statement
+The property now holds in full: `flatten_sound` —
 
-    theorem flatten_sound (s : Schema σ) (kv : JO σ) (f : Filter σ) :
-        Col.passes fold (flatten s kv) f = Spec.passes fold s kv f
+    Col.passes fold (flatten s kv) f = Spec.passes fold s kv f
 
-is **false** for the code as it exists: when a nested path has two parent objects that both carry
-children, the child object indices restart at 0 for every parent (values of different parents are
-merged under one index), `nested_counts.insert` keeps only the last parent's count and the parent
-column keeps, per index, only the last writer.  `flatten_unsound_child_index_collision` is the
-kernel-checked counterexample (`corpus/C08/child-index-collision.json` replays it on the real
-code): both a missed match and a false match.
-
-What is proved: `flatten_sound_partial` — the statement for every schema (any nesting depth),
-every document in which each nested path has at most one parent object carrying a non-null
-value (`singleCarrier`, decidable), and every filter tree whose leaf clauses below `Nested`
+for every schema (any nesting depth), EVERY document (any number of parent objects carrying
+children at every level) and every `And`/`Or`/`Not`/`Nested` tree whose leaf clauses below `Nested`
 clauses name plain (undotted) fields; dotted paths are allowed at the top level, where the
-documentation describes them.  Plus small facts about the clause tests (case folding, inclusive
-typed ranges, any value of a multi-valued field) and the fuel-free reading of `Spec.passes`
-(`spec_fuel_irrelevant`, `spec_and`, `spec_or`, `spec_not`, `spec_nested`).
+documentation describes them.  (`flatten_sound_partial` needed `singleCarrier` before the repair.)
+`legacy_flatten_unsound_child_index_collision` is the kernel-checked witness of the original
+defect over the columns as they were written before a2fc693 (`Core/FilterLegacy`), together with
+the correct answers of the repaired columns on the same document
+(`corpus/C08/child-index-collision.json`).  Plus small facts about the clause tests (case
+folding, inclusive typed ranges, any value of a multi-valued field) and the fuel-free reading of
+`Spec.passes` (`spec_fuel_irrelevant`, `spec_and`, `spec_or`, `spec_not`, `spec_nested`).
 -/
 set_option linter.unusedSectionVars false
 set_option linter.unusedSimpArgs false
@@ -39,24 +36,31 @@ open SL.Doc
 
 variable {σ : Type} [DecidableEq σ]
 
-/-- **C08, proved part.**  For documents with at most one carrier per nested path the code's
-column evaluation equals the documented tree semantics, for every filter tree: `And`/`Or`/`Not`,
-nested clauses at any depth, sibling nested clauses of one `And` bound to one object,
-parent/child binding, dotted paths at the top level (`plainInside`: below a `Nested` clause leaf
-clauses name plain fields — the only documented form). -/
-theorem flatten_sound_partial (fold : σ → σ) (s : Schema σ) (kv : JO σ) (f : Filter σ)
-    (hs : singleCarrier s kv = true) (hp : f.plainInside = true) :
+/-- **C08, full statement.**  The code's evaluation over the columns it writes equals the
+documented tree semantics — for every schema, every document and every filter tree: `And`/`Or`/
+`Not`, nested clauses at any depth under any number of parent objects, sibling nested clauses of
+one `And` bound to one object, parent/child binding, dotted paths at the top level
+(`plainInside`: below a `Nested` clause leaf clauses name plain fields — the only documented
+form). -/
+theorem flatten_sound (fold : σ → σ) (s : Schema σ) (kv : JO σ) (f : Filter σ)
+    (hp : f.plainInside = true) :
     Col.passes fold (flatten s kv) f = Spec.passes fold s kv f := by
   unfold Col.passes Spec.passes flatten
-  have h := eval_top_sim fold f.size (rootProps s) none (.obj kv) f
-    (by simpa [singleCarrier, objsOf] using hs) (by simp [objsOf]) hp
-  simpa [objsOf] using h
+  exact eval_top_sim fold f.size (rootProps s) (none, kv) f hp
 
 /-- the same for filters without any dotted name -/
-theorem flatten_sound_partial_plain (fold : σ → σ) (s : Schema σ) (kv : JO σ) (f : Filter σ)
-    (hs : singleCarrier s kv = true) (hp : f.allPlain = true) :
+theorem flatten_sound_plain (fold : σ → σ) (s : Schema σ) (kv : JO σ) (f : Filter σ)
+    (hp : f.allPlain = true) :
     Col.passes fold (flatten s kv) f = Spec.passes fold s kv f :=
-  flatten_sound_partial fold s kv f hs (allPlain_plainInside f hp)
+  flatten_sound fold s kv f (allPlain_plainInside f hp)
+
+/-- at every object of every nested path: the evaluation at object index `g` of the columns
+written for the objects `objs` equals the semantics on the `g`-th object -/
+theorem flatten_sound_inner (fold : σ → σ) (props : NProps σ) (objs : List (PObj σ)) (g : Nat)
+    (f : Filter σ) (hg : g < objs.length) (hp : f.allPlain = true) :
+    Col.eval fold f.size (flattenProps props objs) (some g) f =
+      Spec.sat fold props (objs.getD g (none, .nil)).2 f :=
+  eval_sim fold f.size props objs g f hg hp
 
 /-! ## `Spec.passes` read without fuel
 
@@ -138,7 +142,7 @@ theorem multi_valued_any (fold : σ → σ) (c : Clause σ) (props : NProps σ) 
       (collect l.kind ((kv.get a).getD .null)).any (c.test fold l.kind) := by
   simp [Spec.leafPasses, hf, hfast]
 
-/-! ## negative witness (atoms are `Nat`; `0` = id, `1` = c, `2` = c.a, `3` = c.r, `4` = c.r.t) -/
+/-! ## witness of the repaired defect (atoms are `Nat`; `0` = id, `1` = c, `2` = c.a, `3` = c.r, `4` = c.r.t) -/
 
 def wSchema : Schema Nat :=
   { idField := 0, flat := [],
@@ -161,15 +165,17 @@ def wDoc : JO Nat :=
 def wFilter (p t : Nat) : Filter Nat :=
   .nested 1 (.and [.leaf [2] (.kwEq p), .nested 3 (.leaf [4] (.kwEq t))])
 
-/-- the full statement fails on the unchanged code: the parent `p0` has the child `x`, yet the
-columns say no (missed match); the parent `p1` has no child `x`, yet the columns say yes (false
-match).  Both parents carry children, so `singleCarrier` is false. -/
-theorem flatten_unsound_child_index_collision :
+/-- before a2fc693: the parent `p0` has the child `x`, yet the legacy columns said no (missed
+match); the parent `p1` has no child `x`, yet they said yes (false match); both parents carry
+children (`singleCarrier` false).  The repaired columns answer both correctly. -/
+theorem legacy_flatten_unsound_child_index_collision :
     Spec.passes id wSchema wDoc (wFilter 10 20) = true ∧
-    Col.passes id (flatten wSchema wDoc) (wFilter 10 20) = false ∧
+    Col.passes id (Legacy.flatten wSchema wDoc) (wFilter 10 20) = false ∧
     Spec.passes id wSchema wDoc (wFilter 11 20) = false ∧
-    Col.passes id (flatten wSchema wDoc) (wFilter 11 20) = true ∧
-    singleCarrier wSchema wDoc = false := by decide
+    Col.passes id (Legacy.flatten wSchema wDoc) (wFilter 11 20) = true ∧
+    Legacy.singleCarrier wSchema wDoc = false ∧
+    Col.passes id (flatten wSchema wDoc) (wFilter 10 20) = true ∧
+    Col.passes id (flatten wSchema wDoc) (wFilter 11 20) = false := by decide
 
 /-! ## non-vacuity -/
 
@@ -180,7 +186,7 @@ def wDocOk : JO Nat :=
     (.cons (wParent 10 (.cons (wT 20) (.cons (wT 21) .nil)))
       (.cons (.obj (.cons 2 (.str 11) (.cons 3 .null .nil))) .nil))) .nil)
 
-example : singleCarrier wSchema wDocOk = true ∧ (wFilter 10 20).allPlain = true ∧
+example : Legacy.singleCarrier wSchema wDocOk = true ∧ (wFilter 10 20).allPlain = true ∧
     Col.passes id (flatten wSchema wDocOk) (wFilter 10 20) = true ∧
     Spec.passes id wSchema wDocOk (wFilter 10 20) = true ∧
     Col.passes id (flatten wSchema wDocOk) (wFilter 11 20) = false ∧
